@@ -771,3 +771,70 @@ def gen_tw(tier, rng):
 def gen_c03(tier, rng): return gen_mm(tier, rng, fwd=True)
 def gen_c04(tier, rng): return gen_mm(tier, rng, fwd=False)
 def nontrivial_mm(op, kv): return len(kv.get("x", "")) >= 4 and len(kv.get("h", "")) >= 8
+
+# --------------------------------------------------------------------------
+# C05: every entry point against guard pages, foreign needles, low addresses
+# --------------------------------------------------------------------------
+def with_flush(line, rng):
+    """re-place the operands of a case flush against a guard page"""
+    op, kv = parse_case(line)
+    side = rng.choice([1, 2, 2])
+    hk = "h" if "h" in kv else "x"
+    n = len(kv.get(hk, "")) // 2
+    toks = [t for t in line.split() if not t.startswith(("a=", "ax=", "ay=", "fl=", "fx=1", "fy=", "fln=", "an="))]
+    if op in ("iseq", "ispre", "issuf"):
+        return " ".join(toks) + f" fx={side} fy={rng.choice([1, 2])}"
+    a = 0 if side == 1 else (4096 - n) % 4096
+    return " ".join(toks) + f" a={a} fl={side} fln={rng.choice([0, 1, 2])}"
+
+def gen_c05(tier, rng):
+    quick = tier == "quick"
+    cases = []
+    step = 7 if quick else 2
+    # every family, re-placed against PROT_NONE pages
+    for g in (gen_c18, gen_c01, gen_c02, gen_c07, gen_c06):
+        src = [c for c in g(tier, rng) if "cpu=" not in c]
+        for c in src[::step]:
+            cases.append(with_flush(c, rng))
+    for g in (gen_c12, gen_c11):
+        src = [c for c in g(tier, rng) if "cpu=" not in c and not c.startswith("sofind")]
+        for c in src[:: (step * 2)]:
+            cases.append(with_flush(c, rng))
+    tw = [c for c in gen_tw(tier, rng)]
+    for c in tw[:: (step * 6)]:
+        cases.append(with_flush(c, rng) if " h=" in c else c)
+    # foreign needles: argument needle differs from the construction needle
+    xs = [b"ab", b"abc", b"aab", bytes(range(1, 10)), b"ab" * 10, bytes(range(1, 41))]
+    fxs = [b"", b"a", b"ab", b"ba", b"abcd", b"ab" * 30, b"q" * 100, bytes(200), b"ab" + bytes(400)]
+    for x in xs:
+        for fx in fxs:
+            for L in (0, 1, 5, 16, 17, 18, 33, 40, 64, 100):
+                h = (b"ab" + bytes([0x71]) * 5 + x + fx[:7]) * 20
+                h = h[:L]
+                for fl in (0, 2):
+                    a = (4096 - L) % 4096 if fl == 2 else 3
+                    cases.append(f"rkfind nx={hexs(x)} x={hexs(fx)} h={hexs(h)} a={a} fl={fl} fln=2")
+                    cases.append(f"rkrfind nx={hexs(x)} x={hexs(fx)} h={hexs(h)} a={a} fl={fl} fln=2")
+                    if len(x) >= 2:
+                        for isa in ("sse2", "avx2"):
+                            cases.append(f"ppfind isa={isa} x={hexs(x)} i1=0 i2={len(x) - 1} fx={hexs(fx)} h={hexs(h)} a={a} fl={fl} fln=2")
+                    if len(fx) <= 40 and L <= 40:
+                        cases.append(f"twfind x={hexs(x)} fx={hexs(fx)} h={hexs(h)} a={a} fl={fl}")
+                        cases.append(f"twrfind x={hexs(x)} fx={hexs(fx)} h={hexs(h)} a={a} fl={fl}")
+    # a haystack whose END address is numerically small, argument needle longer than that address
+    h = b"ab" + bytes(15)
+    for n in (65552, 70000):
+        cases.append(f"ppfind isa=sse2 x=6162 i1=0 i2=1 low=1 fx={hexs(b'ab' + bytes(n))} h={hexs(h)}")
+    h2 = b"ab" + bytes(40)
+    cases.append(f"ppfind isa=avx2 x=6162 i1=0 i2=1 low=1 fx={hexs(b'ab' + bytes(65600))} h={hexs(h2)}")
+    return cases
+
+def oracle_c05(op, kv, res, trace, flags):
+    if flags:
+        return f"{op}: a load outside the slices passed to the call, or a misaligned aligned load: {flags}"
+    if res.startswith("CRASH"):
+        return f"{op}: the process died with {res} (a read outside mapped memory)"
+    return None
+
+def nontrivial_c05(op, kv):
+    return len(kv.get("h", kv.get("x", ""))) >= 8
